@@ -5,4 +5,13 @@ go 1.25
 toolchain go1.25.5
 
 require github.com/rjeczalik/notify v0.9.3
+
 require golang.org/x/sys v0.41.0
+
+require github.com/twmb/franz-go v1.20.7
+
+require (
+	github.com/klauspost/compress v1.18.4 // indirect
+	github.com/pierrec/lz4/v4 v4.1.25 // indirect
+	github.com/twmb/franz-go/pkg/kmsg v1.12.0 // indirect
+)
